@@ -68,6 +68,52 @@ theorem subclass_own_listeners_after_inherited {ν : Type} [DecidableEq ν] (bas
   rw [firstOccFrom_append]
   simp
 
+/-! ### histories with removals (`del_listener` / `oset.discard`), every event name, every history -/
+
+/-- after ANY history of add_listener / del_listener(event, handler) / del_listener(event) calls, what fires
+    is the first occurrences of the net registrations, each once, and exactly the listeners with a net
+    registration -/
+theorem history_fires_net_registrations {ν : Type} [DecidableEq ν] (ops : List (Op ν)) (e : ν) :
+    (Mgr.empty.applyAll ops).fire e = firstOcc (netRegs e [] ops) ∧
+    ((Mgr.empty.applyAll ops).fire e).Nodup ∧
+    ∀ h, h ∈ (Mgr.empty.applyAll ops).fire e ↔ h ∈ netRegs e [] ops := by
+  have h1 : (Mgr.empty.applyAll ops).fire e = firstOcc (netRegs e [] ops) :=
+    applyAll_get Mgr.empty ops e [] rfl
+  refine ⟨h1, by rw [h1]; exact firstOccFrom_nodup _ _, fun h => ?_⟩
+  rw [h1]; simp [firstOcc, mem_firstOccFrom]
+
+/-- the same for a service class: the history starts from the listeners inherited at class creation -/
+theorem history_after_inheritance {ν : Type} [DecidableEq ν] (bases : List (Mgr ν)) (ops : List (Op ν)) (e : ν) :
+    ((Mgr.inherit bases).applyAll ops).fire e
+      = firstOcc (netRegs e (bases.flatMap (fun b => b.fire e)) ops) ∧
+    (((Mgr.inherit bases).applyAll ops).fire e).Nodup := by
+  have h1 := applyAll_get (Mgr.inherit bases) ops e (bases.flatMap (fun b => b.fire e)) (inherit_get bases e)
+  exact ⟨h1, by rw [show ((Mgr.inherit bases).applyAll ops).fire e = _ from h1]; exact firstOccFrom_nodup _ _⟩
+
+/-- removing a listener that is not registered changes nothing (Python raises KeyError), and a removal
+    never touches another event -/
+theorem removal_of_absent_is_noop {ν : Type} [DecidableEq ν] (m : Mgr ν) (e : ν) (h : H) :
+    (h ∉ m.fire e → (m.delListener e h).fire e = m.fire e ∧ m.delRaises e h = true) ∧
+    ∀ e', e' ≠ e → (m.delListener e h).fire e' = m.fire e' := by
+  refine ⟨fun hn => ⟨?_, by simpa [Mgr.delRaises, Mgr.fire] using hn⟩, fun e' he => by simp [Mgr.fire, Mgr.delListener, he]⟩
+  simp only [Mgr.fire, Mgr.delListener, osetDiscard, if_true]
+  apply List.filter_eq_self.2
+  intro a ha
+  have : a ≠ h := fun c => hn (c ▸ ha)
+  simp [this]
+
+/-- a removed listener no longer fires; all the others still do, in the same relative order -/
+theorem removed_listener_does_not_fire {ν : Type} [DecidableEq ν] (m : Mgr ν) (e : ν) (h : H) :
+    h ∉ (m.delListener e h).fire e ∧ ((m.delListener e h).fire e).Sublist (m.fire e) ∧
+    ∀ x, x ≠ h → (x ∈ (m.delListener e h).fire e ↔ x ∈ m.fire e) := by
+  simp only [Mgr.fire, Mgr.delListener, osetDiscard, if_true]
+  refine ⟨by simp, List.filter_sublist, fun x hx => by simp [hx]⟩
+
+/-- registering a listener again after its removal puts it at the end -/
+theorem readd_after_removal_appends_at_end {ν : Type} [DecidableEq ν] (m : Mgr ν) (e : ν) (h : H) :
+    ((m.delListener e h).addListener e h).fire e = (m.fire e).filter (fun x => x != h) ++ [h] := by
+  simp [Mgr.fire, Mgr.addListener, Mgr.delListener, osetDiscard, osetAdd]
+
 /-- one firing calls the reached listeners in order — application's manager, then the managers given to
     @rpc, then the service class's — and stops after the first one that raises; if none raises it calls
     every one of them -/
@@ -244,6 +290,10 @@ theorem parse_escape_breaks_closed :
 -- a registration history with duplicates, two events
 example : (Mgr.build [(1, 7), (2, 9), (1, 8), (1, 7), (1, 5), (1, 8)]).fire 1 = [7, 8, 5] := by decide
 example : (Mgr.inherit [Mgr.build [(1, 7), (1, 8)], Mgr.build [(1, 8), (1, 3)]]).fire 1 = [7, 8, 3] := by decide
+-- removal of the head, then re-registration: B, A — and A once
+example : (Mgr.empty.applyAll [Op.add 1 7, .add 1 8, .add 1 7, .del 1 7]).fire 1 = [8] := by decide
+example : (Mgr.empty.applyAll [Op.add 1 7, .add 1 8, .del 1 7, .add 1 7, .del 1 9, .add 2 3]).fire 1 = [8, 7] := by decide
+example : (Mgr.empty.applyAll [Op.add 1 7, .add 1 8, .clear 1, .add 1 8]).fire 1 = [8] := by decide
 -- the table is not empty, the automaton accepts five traces
 example : allRows.length = 1152 := by decide +kernel
 example : (lang 9 .start).length = 5 := by decide +kernel
